@@ -196,7 +196,7 @@ public:
                     continue;
             } else {
                 auto hi = level.keys.begin() + PGM_ADD_EPS(pos, EpsilonRecursive, level.size());
-                auto it = std::prev(std::upper_bound(lo, hi, k));
+                lo = std::prev(std::upper_bound(lo, hi, k));
             }
 
             auto i = std::distance(level.keys.begin(), lo);
